@@ -338,6 +338,112 @@ def build_table_query(db, prog, cxx_global, ref_common, propid='C01'):
     return {'c': '\n\n'.join(parts) + '\n', 'entry': 'harness', 'meta': {'function': cxx_global, 'what': 'rel', 'cuts': [], 'reference': 'block data ' + ref_common}}
 
 
+def trace_stub(sig, side, cid, args, outs=(), ret=None, na=None):
+    """a callee as the same abstract effect on both sides: its identity and arguments go to the call trace, its results
+    are uninterpreted functions of the arguments"""
+    na = na or NA
+    pad = args + ['0.0'] * (na - len(args))
+    L = [sig, '{', '  int k = tr_%s_n; __CPROVER_assert(k < %d, "trace capacity"); tr_%s_id[k] = %d;' % (side, rel.NC, side, cid)]
+    for j, a in enumerate(args):
+        L.append('  tr_%s_arg[k][%d] = %s;' % (side, j, a))
+    for o_, (nm, ct) in enumerate(outs):
+        L.append('  %s = (%s)__CPROVER_uninterpreted_out(%d, %d, %s);' % (nm, ct, cid, o_, ', '.join(pad[:na])))
+    L.append('  tr_%s_n = k + 1; epoch_%s = epoch_%s + 1; idx_%s = 0;' % (side, side, side, side))
+    if ret:
+        L.append('  return (%s)__CPROVER_uninterpreted_out(%d, 99, %s);' % (ret, cid, ', '.join(pad[:na])))
+    L.append('}')
+    return '\n'.join(L)
+
+
+DSHELP_N = 64   # dgmlt1/dgmlt2 evaluate at most 64 abscissae per call
+
+
+def build_dshelp(db, prog, which, propid='C02', mode=None):
+    """decay0_dshelp1/2 (integrand adaptors of the two-electron energy integral) against the reference's dshelp1/2.
+    The arrays are harness arrays of DSHELP_N elements with equal contents; the loop counter runs 0..m-1 in the port and
+    1..m in the reference (relation r_i == x_i + 1); dgmlt2 / fe12_mod* are the same abstract effect on both sides."""
+    old = (rel.NA, rel.NC)
+    global NA
+    rel.NA = 18     # argument + 17 closure scalars
+    rel.NC = 2      # at most one call per segment (small trace arrays: their index is symbolic under the mode guards)
+    NA = 18
+    try:
+        return _build_dshelp(db, prog, which, propid, mode)
+    finally:
+        rel.NA, rel.NC = old
+        NA = old[0]
+
+
+def _build_dshelp(db, prog, which, propid, mode=None):
+    T = db['types']
+    cname = 'decay0_dshelp%d' % which
+    rname = 'dshelp%d' % which
+    pairing = rel.Pairing(db, prog)
+    fx = db['funcs'][cname]
+    fr = prog.translate(rname)
+    pr = bx2c.Printer(T, bx2c.Opts())
+    ids = fun_ids(db)
+    scal = [f_ for f_ in BB_FIELDS if f_[1]]
+    xp = [p[1] for p in fx.params]     # m_, du_, df_, d_el_, params_
+    rp = [p[1] for p in fr.params]     # m, du, df, d_el
+    ptrs = struct_pointer_locals(fx)
+    N = DSHELP_N
+    G = ['static struct bbpars xs;', 'static double xa_du[%d], ra_du[%d], xa_df[%d], ra_df[%d], xa_el[2], ra_el[2];' % (N, N, N, N)]
+    setup = ['  x_%s = (void *)&xs;' % xp[4]]
+    for nm, path in ptrs.items():
+        setup.append('  x_%s = %s;' % (nm, path))
+    setup.append('  for (int j = 0; j < %d; j++) { double v = nondet_double(); xa_du[j] = v; ra_du[j] = v; double w = nondet_double(); xa_df[j] = w; ra_df[j] = w; }' % N)
+    setup.append('  for (int j = 0; j < 2; j++) { double v = nondet_double(); xa_el[j] = v; ra_el[j] = v; }')
+    setup.append('  x_%s = xa_du; x_%s = xa_df; x_%s = xa_el; r_%s = ra_du; r_%s = ra_df; r_%s = ra_el;' % (xp[1], xp[2], xp[3], rp[1], rp[2], rp[3]))
+    setup.append('  __CPROVER_assume(x_%s >= 0 && x_%s <= %d);   /* dgmlt1/dgmlt2 pass at most 64 abscissae */' % (xp[0], xp[0], N))
+    skip = set(rel.norm(n) for n in ptrs) | {rel.norm(n) for n in xp[1:]} | {rel.norm(n) for n in rp[1:]}
+    checks = []
+    for fld, cm, refs, ct in scal:
+        G.append('static %s %s;' % (ct, cm))
+        if fld.endswith('denrange.mode') and mode is not None and which == 2:
+            # one query per integrand selector (at most one fe12_mod call per iteration then); 'other' = none of the nine
+            if mode == 'other':
+                setup.append('  { int v = nondet_int(); __CPROVER_assume(%s); xs.%s = v; %s = v; }' % (' && '.join('v != %d' % m_ for m_ in BB_M2), fld, cm))
+            else:
+                setup.append('  { int v = %d; xs.%s = v; %s = v; }' % (mode, fld, cm))
+        else:
+            setup.append('  { %s v = nondet_%s(); xs.%s = v; %s = v; }' % (ct, ct, fld, cm))
+        checks.append(('closure ' + fld.split('.')[-1], 'bx_same((double)xs.%s, (double)%s)' % (fld, cm)))
+    for j in range(N):
+        checks.append(('df[%d]' % j, 'bx_same(xa_df[%d], ra_df[%d])' % (j, j)))
+    checks.append(('d_el', 'bx_same(xa_el[0], ra_el[0]) && bx_same(xa_el[1], ra_el[1])'))
+    checks.append(('du untouched', ' && '.join('bx_same(xa_du[%d], ra_du[%d])' % (j, j) for j in range(N))))
+    clos_x = ['(double)((struct bbpars *)PP)->%s' % f_[0] for f_ in scal]
+    clos_r = ['(double)%s' % f_[1] for f_ in scal]
+    hooks = {'ref': rname, 'skip_vars': skip, 'extra_setup': setup, 'extra_checks': checks, 'extra_globals': G,
+             'custom_stubs_x': {}, 'custom_stubs_r': {}, 'offset': {'i': 1},
+             'cut_invariants': {'bx_loop1_head': [('loop counter within the arrays', 'x_i >= 0 && x_i <= x_%s' % xp[0])]}}
+    if which == 2:
+        for c in sorted(fx.calls):
+            m = re.match(r'^decay0_(fe\d+_mod\d+)$', c)
+            if m:
+                gg = db['funcs'][c]
+                pn = [p[1] for p in gg.params]
+                hooks['custom_stubs_x'][c] = trace_stub(pr.signature(gg), 'x', pairing.callee_id(m.group(1)), ['(double)%s' % pn[0]] + [a.replace('PP', pn[1]) for a in clos_x], ret='double')
+        for c in sorted(fr.calls):
+            if re.match(r'^fe\d+_mod\d+$', c):
+                hooks['custom_stubs_r'][c] = trace_stub('double ref_%s(double e)' % c, 'r', pairing.callee_id(c), ['(double)e'] + clos_r, ret='double')
+    else:
+        gg = db['funcs']['decay0_dgmlt2']
+        pn = [p[1] for p in gg.params]   # f, a, b, ni, ng, x, params
+        # dgmlt2 integrates over the second energy: it calls its integrand with x, which stores the abscissa in x[1]
+        hooks['custom_stubs_x']['decay0_dgmlt2'] = trace_stub(pr.signature(gg), 'x', pairing.callee_id('dgmlt2'),
+                                                             ['(%s == decay0_dshelp2 ? 2.0 : 0.0)' % pn[0], '(double)%s' % pn[1], '(double)%s' % pn[2], '(double)%s' % pn[3], '(double)%s' % pn[4], '(double)%s[0]' % pn[5]] + [a.replace('PP', pn[6]) for a in clos_x],
+                                                             outs=[('%s[1]' % pn[5], 'double')], ret='double')
+        hooks['extra_globals'].append('void ref_dshelp2(int m, double *du2, double *df2, double *d_el);')
+        hooks['custom_stubs_r']['dgmlt2'] = trace_stub('double ref_dgmlt2(void (*f)(int, double *, double *, double *), double a, double b, int ni, int ng, double *x)', 'r', pairing.callee_id('dgmlt2'),
+                                                       ['(f == ref_dshelp2 ? 2.0 : 0.0)', '(double)a', '(double)b', '(double)ni', '(double)ng', '(double)x[0]'] + clos_r,
+                                                       outs=[('x[1]', 'double')], ret='double')
+        hooks['custom_stubs_x']['decay0_dshelp2'] = pr.signature(db['funcs']['decay0_dshelp2']) + '\n{\n}'
+        hooks['custom_stubs_r']['dshelp2'] = 'void ref_dshelp2(int m, double *du2, double *df2, double *d_el)\n{\n}'
+    return rel.build_pair_query(db, prog, cname, pairing=pairing, propid=propid, hooks=hooks)
+
+
 # ----------------------------------------------------------------------------------------------
 # decay0_bb against the reference bb(modebb,Qbb,Edlevel,EK,Zdbb,Adbb,istartbb)
 # ----------------------------------------------------------------------------------------------
